@@ -228,6 +228,63 @@ def monitor_big(case, tr, raw):
     return None
 
 
+def monitor_tso(case, tr, raw):
+    """the clauses of the property that do not depend on when a completed store becomes visible: every token taken at
+    most once, only pushed tokens, nothing lost once the owner has drained, no access to a freed array"""
+    if tr is None:
+        return "implementation produced no trace: %s" % (raw or "")[:80]
+    params, progs = parse_case(case)
+    nthreads = len(progs)
+    for t in range(1, nthreads):
+        if any(o != STEAL for (o, _) in progs[t]):
+            return None
+    pushed = [a for (o, a) in progs[0] if o == PUSH]
+    if len(set(pushed)) != len(pushed):
+        return None
+    universe = set(pushed)
+    returned = {}
+    opidx = [0] * nthreads
+    stuck = False
+    freed = set()
+    for (t, loc, kind, val) in tr:
+        if kind == -9:
+            return "the deque code crashed (signal %d)" % val
+        if kind == 919 and loc >= 990:
+            freed.add(loc - 990)
+            continue
+        if kind == 919:
+            stuck = True
+            continue
+        if kind in (9, 19) and loc >= 1000 and loc // 1000 in freed:
+            return "slot of freed array %d accessed" % (loc // 1000)
+        if kind != 909:
+            continue
+        if t >= nthreads or opidx[t] >= len(progs[t]):
+            return "return event of thread %d beyond its program" % t
+        op, a = progs[t][opidx[t]]
+        opidx[t] += 1
+        if op == PUSH or val in (EMPTY, ABORT):
+            continue
+        if val in POISON:
+            return "a take by thread %d returned the content of freed memory" % t
+        if val not in universe:
+            return "thread %d took %d, which was never pushed" % (t, val)
+        if val in returned:
+            return "token %d handed to two takers (thread %d, then thread %d)" % (val, returned[val], t)
+        returned[val] = t
+    if not stuck and all(opidx[t] == len(progs[t]) for t in range(nthreads)):
+        k = 0
+        for (o, _) in reversed(progs[0]):
+            if o != POP:
+                break
+            k += 1
+        if k >= len(pushed):
+            lost = sorted(universe - set(returned))
+            if lost:
+                return "token(s) %s pushed but never returned although the owner drained the deque" % lost[:4]
+    return None
+
+
 def big_cases():
     """the owner's pop is stalled j steps in, one or two thieves then steal until EMPTY, the owner finishes, pushes one
     more token and drains.  P spans the sizes at which a length-dependent shortcut could switch on."""
@@ -415,6 +472,9 @@ def run_part(ctx):
             n, bad = run_big(ctx, exe)
             ctx.oblige("monitor:wsd-long-queues(%d runs)" % n, bad == 0, "%d long-queue runs judged a violation" % bad)
             ctx.coverage["wsd_long_queue_runs"] = n
+            n, bad = run_tso(ctx, exe, 40000)
+            ctx.oblige("monitor:wsd-x86-tso(%d runs)" % n, bad == 0, "%d runs with delayed stores judged a violation" % bad)
+            ctx.coverage["wsd_tso_runs"] = n
     return ok and not ctx.failures and not ctx.violations
 
 
@@ -445,6 +505,14 @@ def search(ctx, exe):
                 break
     if not ctx.violations:
         run_big(ctx, exe)
+    if not ctx.violations:
+        run_tso(ctx, exe, 60000)
+
+
+def run_tso(ctx, exe, n):
+    """x86-TSO: random programs with randomly delayed (store-buffered) atomic stores, judged by monitor_tso"""
+    rng = random.Random(ctx.seed * 7919 + 77)
+    return core.tso_search(ctx, LABEL, exe, [random_case(rng) for _ in range(n)], monitor_tso)
 
 
 def run_big(ctx, exe):
@@ -475,6 +543,11 @@ def replay(ctx, payload):
     if not exe or not c:
         print("nothing to replay (no concrete case in this file)")
         return 2
+    if str(payload.get("harness", "")).endswith("+tso"):
+        impl = core.run_sharded(core.TSO_CMD + [exe], [c])[0]
+        why = core.safe_monitor(monitor_tso, c, core.parse_trace(impl) if impl is not None else None, impl)
+        print("case:  %s\nimpl (x86-TSO store buffers, flush tokens 100+t in the schedule):  %s\nmonitor: %s" % (c, impl, why or "ok"))
+        return 1 if why else 0
     if str(payload.get("harness", "")).endswith("+catchall"):
         impl = core.run_sharded(["env", "RT_CATCHALL=1", exe], [c])[0]
         why = core.safe_monitor(monitor, c, core.parse_trace(impl) if impl is not None else None, impl)
